@@ -4,7 +4,7 @@
 
      get_sample_from_neighbour_info   mask channels appended as extra columns (np.column_stack((data, mask)))
      _extract_resample_result         weight functions doubled for masked data; k = 1 -> array indexing path
-     _resample_with_weights           per-slot gather, 0/1 "present" factor, result/norm accumulation, norm > 0, fill
+     _resample_with_weights           per-slot gather, weight 0 for missing slots, result/norm accumulation, norm > 0, fill
      _calculate_uncertainty           count, norm_sqr (V2), weighted squared deviations, count > 1, sqrt(V1/(V1^2-V2) * s)
      _prepare_and_fill_uncertainty_result / _prepare_result / _remask_data
                                       locations that are not valid outputs, NaN -> mask, mask channel != 0, masked_equal(fill)
@@ -73,49 +73,61 @@ Section Weights.
     | _, _ => []
     end.
 
-  (* ---- loop 3: weights_tmp = inv_index_mask * weight; result += weights_tmp * ch; norm += weights_tmp *)
-  Definition wtmp (s : slot T) : T := mul OP (b2t (present s)) (wgt s).
-  Definition acc_step (a : T * T) (s : slot T) : T * T :=
-    (add OP (fst a) (mul OP (wtmp s) (val s)), add OP (snd a) (wtmp s)).
-  Definition acc (ss : list (slot T)) : T * T := fold_left acc_step ss (tzero, tzero).
+  (* ---- loop 3: weights_tmp = np.where(inv_index_mask, weight, 0.0); result += weights_tmp * ch; norm += weights_tmp.
+     A missing slot gets weight 0 outright (since the second fix); before, it was the 0/1 "present" factor times the
+     weight function evaluated at the placeholder distance 1 (wtmp_legacy): 0 * inf = NaN. *)
+  Definition wtmp (s : slot T) : T := if present s then wgt s else tzero.
+  Definition wtmp_legacy (s : slot T) : T := mul OP (b2t (present s)) (wgt s).
 
-  (* result[norm > 0] /= norm[norm > 0]; result[~(norm > 0)] = fill_value *)
-  Definition mean_of (ss : list (slot T)) (fillv : T) : T :=
-    let a := acc ss in
-    if ltb OP tzero (snd a) then div OP (fst a) (snd a) else fillv.
+  Section Accumulate.
+    Variable wt : slot T -> T.
+    Definition acc_step (a : T * T) (s : slot T) : T * T :=
+      (add OP (fst a) (mul OP (wt s) (val s)), add OP (snd a) (wt s)).
+    Definition acc (ss : list (slot T)) : T * T := fold_left acc_step ss (tzero, tzero).
 
-  (* ---- _calculate_uncertainty *)
+    (* result[norm > 0] /= norm[norm > 0]; result[~(norm > 0)] = fill_value *)
+    Definition mean_of (ss : list (slot T)) (fillv : T) : T :=
+      let a := acc ss in
+      if ltb OP tzero (snd a) then div OP (fst a) (snd a) else fillv.
+
+    (* ---- _calculate_uncertainty *)
+    Definition unc_step (res : T) (a : T * T) (s : slot T) : T * T :=
+      (add OP (fst a) (sq (wt s)),
+       add OP (snd a) (mul OP (wt s) (sq (sub OP (mul OP (b2t (present s)) (val s)) res)))).
+    (* (norm_sqr, stddev accumulator) *)
+    Definition unc (res : T) (ss : list (slot T)) : T * T := fold_left (unc_step res) ss (tzero, tzero).
+
+    (* stddev[count > 1] = sqrt((v1 / (v1 ** 2 - v2)) * stddev); stddev[~(count > 1)] = nan; later mask = isnan(stddev).
+       The NaN marker is carried as an explicit flag so that the real instance (which has no NaN) keeps it. *)
+    Definition stddev_of (cnt : Z) (ss : list (slot T)) (res : T) : T * bool :=
+      let v1 := snd (acc ss) in
+      let u := unc res ss in
+      if 1 <? cnt then
+        let v := sqrtf OP (mul OP (div OP v1 (sub OP (sq v1) (fst u))) (snd u)) in (v, isnan OP v)
+      else (nan OP, true).
+  End Accumulate.
+
   Definition count_of (ss : list (slot T)) : Z :=
     fold_left (fun c s => c + (if present s then 1 else 0)) ss 0.
-  Definition unc_step (res : T) (a : T * T) (s : slot T) : T * T :=
-    (add OP (fst a) (sq (wtmp s)),
-     add OP (snd a) (mul OP (wtmp s) (sq (sub OP (mul OP (b2t (present s)) (val s)) res)))).
-  (* (norm_sqr, stddev accumulator) *)
-  Definition unc (res : T) (ss : list (slot T)) : T * T := fold_left (unc_step res) ss (tzero, tzero).
-
-  (* stddev[count > 1] = sqrt((v1 / (v1 ** 2 - v2)) * stddev); stddev[~(count > 1)] = nan; later mask = isnan(stddev).
-     The NaN marker is carried as an explicit flag so that the real instance (which has no NaN) keeps it. *)
-  Definition stddev_of (ss : list (slot T)) (res : T) : T * bool :=
-    let v1 := snd (acc ss) in
-    let u := unc res ss in
-    if 1 <? count_of ss then
-      let v := sqrtf OP (mul OP (div OP v1 (sub OP (sq v1) (fst u))) (snd u)) in (v, isnan OP v)
-    else (nan OP, true).
 
   Definition slots_col (g : (T -> T) -> Z -> list T -> Z -> T -> slot T)
              (wf : T -> T) (n : Z) (col : list T) (ix : list Z) (ds : list T) : list (slot T) :=
     map2 (g wf n col) ix ds.
 
-  Definition col_of_slots (ss : list (slot T)) (fillv : T) : colres T :=
-    let res := mean_of ss fillv in
-    let sd := stddev_of ss res in
+  Definition col_of_slots (wt : slot T -> T) (ss : list (slot T)) (fillv : T) : colres T :=
+    let res := mean_of wt ss fillv in
+    let sd := stddev_of wt (count_of ss) ss res in
     mk_colres res (fst sd) (snd sd) (count_of ss).
 
   (* k >= 2 *)
   Definition weighted_col (wf : T -> T) (n : Z) (col : list T) (ix : list Z) (ds : list T) (fillv : T) : colres T :=
-    col_of_slots (slots_col gather wf n col ix ds) fillv.
+    col_of_slots wtmp (slots_col gather wf n col ix ds) fillv.
+  (* the code before both fixes *)
   Definition weighted_col_legacy (wf : T -> T) (n : Z) (col : list T) (ix : list Z) (ds : list T) (fillv : T) : colres T :=
-    col_of_slots (slots_col gather_legacy wf n col ix ds) fillv.
+    col_of_slots wtmp_legacy (slots_col gather_legacy wf n col ix ds) fillv.
+  (* the code between the fixes: missing slots gather 0 but are weighted 0 * wf(1) *)
+  Definition weighted_col_legacy_w (wf : T -> T) (n : Z) (col : list T) (ix : list Z) (ds : list T) (fillv : T) : colres T :=
+    col_of_slots wtmp_legacy (slots_col gather wf n col ix ds) fillv.
 
   (* k = 1 (index_array is one-dimensional): _extract_resample_result takes the nearest neighbour by array
      indexing, no weight is evaluated; with_uncert (since the fix): count 1 where found, stddev undefined *)
